@@ -96,9 +96,17 @@ func families(tier string) []family {
 		{kind: 's', name: "a", target: "x/x/../.."}, {kind: 's', name: "a", target: "x/.."},
 		{kind: 'r', name: "a/f"}, {kind: 'd', name: "a/d"}, {kind: 'r', name: "a"},
 	}
+	// link targets that stay inside when read relative to the link's own directory (as they are
+	// validated) but name an existing file outside the working directory when read relative to the
+	// archive root (as tar(1) writes hard links), extracted into the working directory itself
+	rootrel := []entry{
+		{kind: 'd', name: "a"}, {kind: 'h', name: "a/c", target: "../outside/f"}, {kind: 'h', name: "a/c", target: "../wd-sibling/s"},
+		{kind: 'h', name: "a/c", target: "../cwd/victim"}, {kind: 's', name: "a/c", target: "../outside/f"}, {kind: 'r', name: "a/c"}, {kind: 'r', name: "a/x"},
+	}
 	three := []string{"empty", "files", "uplink"}
 	if tier != "thorough" {
 		return []family{
+			{name: "rootrel4", title: ".", alpha: rootrel, depth: 4, states: []string{"empty"}, nsh: 2},
 			{name: "replace5", title: "n", alpha: replace, depth: 5, states: []string{"empty"}, nsh: 16},
 			{name: "full2", title: "n", alpha: full, depth: 2, states: three, nsh: 8},
 			{name: "core3", title: "n", alpha: core, depth: 3, states: three, nsh: 48},
@@ -106,6 +114,7 @@ func families(tier string) []family {
 		}
 	}
 	return []family{
+		{name: "rootrel5", title: ".", alpha: rootrel, depth: 5, states: []string{"empty"}, nsh: 4},
 		{name: "full2", title: "n", alpha: full, depth: 2, states: []string{"files", "uplink"}, nsh: 8},
 		{name: "core3", title: "n", alpha: core, depth: 3, states: []string{"files", "uplink"}, nsh: 48},
 		{name: "mini4", title: "n", alpha: mini, depth: 4, states: three, nsh: 64},
